@@ -76,3 +76,77 @@ def env_cfg_shards(tier: str, env_list: List[str], weight: Dict[str, float] = No
 
 
 HEAVY = {"BinPack": 3.0, "MMST": 3.0, "RobotWarehouse": 2.5, "PacMan": 2.5, "RubiksCube": 2.0, "JobShop": 2.0, "LevelBasedForaging": 2.0, "Connector": 2.0}
+
+
+# ------------------------------------------------------------------------------------------------- coincidences
+# Two end reasons on one step: the episode is first played with a generous limit and the models' completing workload; if it
+# ends naturally at step S, the same key and actions are replayed on an environment built with time_limit = S, so that the
+# completion (last food eaten, target reached, puzzle solved, maze cleared ...) falls exactly on the step that reaches the limit.
+COINCIDE = {
+    "LevelBasedForaging": ["g6a3f2v1L20", "default"], "Maze": ["r4c7", "r5c9L7"], "Cleaner": ["r4c7a1"], "Connector": ["u5a4L7", "w5a3rwintL15"],
+    "Sokoban": ["simple"], "Snake": ["r2c3L40", "r3c4L60"], "RubiksCube": ["n2s3L7"], "SlidingTilePuzzle": ["g3m20L7"],
+    "PacMan": ["small12x13L400"], "MMST": ["n12e18d4a2p3L7", "n10e16d5a3p2"],
+}
+
+
+def coincidence_shards(tier: str, weight: Dict[str, float] = None) -> List[Dict[str, Any]]:
+    out = []
+    for e, cids in COINCIDE.items():
+        for cid in (cids[:1] if tier == "quick" else cids):
+            try:
+                c = E.cfg_by_id(e, cid)
+            except KeyError:
+                continue
+            out.append({"id": f"{e}|{cid}|coincide", "env": e, "cfg": c, "coincide": True, "weight": (weight or {}).get(e, 1.0)})
+    return out
+
+
+def run_coincidence(shard: Dict[str, Any], rep, make_monitor) -> None:
+    """make_monitor(runner, P) -> Monitor for the replayed episode on the environment whose limit equals the natural end step."""
+    import numpy as np
+
+    from jmon.common import key_for, shard_rng
+    from jmon.modelapi import ModelCtx
+    from jmon.rollout import Runner, run_episode
+
+    name, cfg, tier, seed, sid = shard["env"], shard["cfg"], shard["tier"], shard["seed"], shard["id"]
+    rng = shard_rng(seed, sid)
+    big = {k: v for k, v in cfg.items() if k not in ("tl_type", "make_id")}
+    big["time_limit"] = 400
+    big["id"] = cfg["id"] + "|L400"
+    r_big = Runner(name, big)
+    P_big = ModelCtx(name, big, rep, env=r_big.env, rng=rng)
+    extra = P_big.call("policies") if P_big.has("policies") else {}
+    pol = extra.get("complete")
+    if pol is None:
+        rep.count("coincidence_no_completing_workload")
+        return
+    done = 0
+    for ep in range(6 if tier == "quick" else 20):
+        key, kint = key_for(seed, sid, ep)
+        info = run_episode(r_big, key, kint, pol, rng, [], episode=ep, max_steps=399)
+        S = info["steps"]
+        if not info["ended"] or S < 1 or S >= 399:
+            continue
+        acts = [np.asarray(e.action) for e in info["trace"][1:]]
+        c2 = dict(big)
+        c2["time_limit"] = S
+        c2["id"] = cfg["id"] + f"|L=naturalend{S}"
+        if name == "MMST":
+            c2["max_step"] = S
+        r2 = Runner(name, c2)
+        P2 = ModelCtx(name, c2, rep, env=r2.env, rng=rng)
+        mon = make_monitor(r2, P2)
+
+        def replay(ctx, acts=acts):
+            return acts[ctx["t"]] if ctx["t"] < len(acts) else acts[-1]
+
+        info2 = run_episode(r2, key, kint, replay, rng, [mon], episode=ep, max_steps=S + 3, post_terminal=2)
+        rep.states += info2["steps"] + 1
+        rep.transitions += info2["steps"]
+        rep.count("coincidence_episodes")
+        rep.env_count(name, "coincidence_episodes")
+        done += 1
+        if done >= (2 if tier == "quick" else 6):
+            break
+    E.cleanup()
